@@ -153,8 +153,11 @@ def finish(run, mod, verbose=False):
                                       "loc": o["loc"], "detail": o["detail"], "configs": []})
             if o["config"] and o["config"] not in v["configs"]:
                 v["configs"].append(o["config"])
-    os.makedirs(os.path.join(VERIF, "reports"), exist_ok=True)
-    os.makedirs(os.path.join(VERIF, "evidence"), exist_ok=True)
+    # tools that point the checks at a scratch copy (RSAV_REPO) send reports/evidence elsewhere, so that the committed
+    # evidence always describes runs against /repo itself
+    OUT = os.environ.get("RSAV_OUT_DIR") or VERIF
+    os.makedirs(os.path.join(OUT, "reports"), exist_ok=True)
+    os.makedirs(os.path.join(OUT, "evidence"), exist_ok=True)
     n_new = 0
     lines = []
     for key in sorted(viol):
@@ -163,7 +166,7 @@ def finish(run, mod, verbose=False):
             lines.append("KNOWN-FINDING: property=%s %s %s" % (prop, key, known_keys[key].get("what", v["msg"])))
             continue
         n_new += 1
-        rp = os.path.join(VERIF, "reports", "%s-%d.json" % (prop, n_new))
+        rp = os.path.join(OUT, "reports", "%s-%d.json" % (prop, n_new))
         with open(rp, "w") as fh:
             json.dump({"property": prop, "tier": run.tier, "tree": run.tree, **v}, fh, indent=1)
         lines.append("VIOLATION property=%s replay=%s" % (prop, rp))
@@ -208,7 +211,7 @@ def finish(run, mod, verbose=False):
         "assumptions": [("%s: %s" % (t, TRUSTED[t])) for t in getattr(mod, "TRUSTED", [])],
         "wall_s": round(wall, 2), "violations": n_new,
     }
-    with open(os.path.join(VERIF, "evidence", "%s.json" % prop), "w") as fh:
+    with open(os.path.join(OUT, "evidence", "%s.json" % prop), "w") as fh:
         json.dump(ev, fh, indent=1)
     for ln in lines:
         print(ln)
